@@ -19,7 +19,6 @@ import (
 	"github.com/influxdata/kapacitor/udf"
 	"github.com/influxdata/kapacitor/udf/agent"
 
-	"verifharness/kit"
 )
 
 // ---------------------------------------------------------------------------------------------
@@ -245,27 +244,32 @@ func (c *fakeClient) QueryFluxResponse(q influxdb.FluxQuery) (*influxdb.Response
 func (c *fakeClient) CreateBucketV2(bucket, org, orgID string) error { return nil }
 
 // ---------------------------------------------------------------------------------------------
-// UDF service: kit's recording `@sink()` plus `@failer().k(K)`, a UDF that behaves like a UDF process
-// that forwards K messages and then dies (abort callback, Out closed, Close returns an error).
+// UDF service: `@sink()`, a pass-through UDF (Abort = the process is killed: it stops reading and writing;
+// kit's sinkUDF cannot be used here because its Abort panics when it is called before Open, which
+// ExecutingTask.stop does when the stop comes right after the start), and `@failer().k(K)`, a UDF that
+// behaves like a UDF process that forwards K messages and then dies (abort callback, Out closed, Close
+// returns an error).
 
-type udfService struct {
-	sink *kit.SinkUDFService
-}
+type udfService struct{}
 
-func (s *udfService) List() []string { return append(s.sink.List(), "failer") }
+func (s *udfService) List() []string { return []string{"sink", "failer"} }
 func (s *udfService) Info(name string) (udf.Info, bool) {
-	if name == "failer" {
+	switch name {
+	case "failer":
 		return udf.Info{Wants: agent.EdgeType_STREAM, Provides: agent.EdgeType_STREAM,
 			Options: map[string]*agent.OptionInfo{"k": {ValueTypes: []agent.ValueType{agent.ValueType_INT}}}}, true
+	case "sink":
+		return udf.Info{Wants: agent.EdgeType_STREAM, Provides: agent.EdgeType_STREAM, Options: map[string]*agent.OptionInfo{}}, true
 	}
-	return s.sink.Info(name)
+	return udf.Info{}, false
 }
 func (s *udfService) Create(name, taskID, nodeID string, d udf.Diagnostic, abortCallback func()) (udf.Interface, error) {
-	if name == "failer" {
-		info, _ := s.Info(name)
-		return &failUDF{info: info, in: make(chan edge.Message), out: make(chan edge.Message), done: make(chan struct{}), abortCB: abortCallback, abrt: make(chan struct{})}, nil
+	info, ok := s.Info(name)
+	if !ok {
+		return nil, errors.New("unknown udf " + name)
 	}
-	return s.sink.Create(name, taskID, nodeID, d, abortCallback)
+	u := &failUDF{info: info, k: -1, in: make(chan edge.Message), out: make(chan edge.Message), done: make(chan struct{}), abortCB: abortCallback, abrt: make(chan struct{})}
+	return u, nil
 }
 
 type failUDF struct {
@@ -288,17 +292,17 @@ func (u *failUDF) Open() error {
 		defer close(u.out)
 		var n int64
 		for {
-			if n >= u.k {
-				// the process dies: tell the node to stop writing, then stop reading
-				u.mu.Lock()
-				u.crashed = true
-				u.mu.Unlock()
-				u.doAbort()
-				return
-			}
 			select {
 			case m, ok := <-u.in:
 				if !ok {
+					return
+				}
+				if u.k >= 0 && n >= u.k {
+					// the process dies on this message: tell the node to stop writing, stop reading
+					u.mu.Lock()
+					u.crashed = true
+					u.mu.Unlock()
+					u.doAbort()
 					return
 				}
 				select {
